@@ -132,9 +132,11 @@ def rule_kind(repo, tier):
         from ..expr import returns_of
         rnodes = returns_of(f.node)
         ret_names = []
+        from ..expr import ret_elts
         for r in rnodes:
-            if isinstance(r.value, ast.Tuple) and len(r.value.elts) == 2:
-                ret_names.append([_root_name(x) for x in r.value.elts])
+            el = ret_elts(f.node, r)
+            if el is not None and len(el) == 2:
+                ret_names.append([_root_name(x) for x in el])
         for rv in rets:
             ok_r = ok_j = None
             if hasattr(rv, 'items') and len(rv.items) == 2:
@@ -382,12 +384,21 @@ def rule_sel_axis(repo, tier):
         for e in ev:
             if e[0] == 'assume' and 'len(self.kernel)' in src(e[1]):
                 multi = (e[2] and ('> 1' in src(e[1]) or '>= 2' in src(e[1]))) or (not e[2] and ('== 1' in src(e[1]) or '<= 1' in src(e[1]) or '< 2' in src(e[1])))
-                body = [x[1] for x in ev if x[0] == 'stmt']
-                txt = ' '.join(src(b) for b in body)
-                if multi and 'zip(self.kernel, residuals)' in txt.replace('  ', ' '):
-                    ok_multi = True
-                if not multi and 'self.kernel[0]' in txt:
-                    ok_single = True
+                comps = [n for x in ev if x[0] == 'stmt' for n in ast.walk(x[1]) if isinstance(n, (ast.ListComp, ast.GeneratorExp))]
+                for c in comps:
+                    g = c.generators[0]
+                    applied = [n for n in ast.walk(c.elt) if isinstance(n, ast.Call)]
+                    if isinstance(g.iter, ast.Call) and dotted(g.iter.func) == 'zip' and len(g.iter.args) == 2 and dotted(g.iter.args[0]) == 'self.kernel' \
+                            and isinstance(g.target, ast.Tuple) and len(g.target.elts) == 2:
+                        kn, rn = g.target.elts[0].id, g.target.elts[1].id
+                        if multi and any(isinstance(a.func, ast.Name) and a.func.id == kn and any(isinstance(y, ast.Name) and y.id == rn for x in a.args for y in ast.walk(x))
+                                         for a in applied):
+                            ok_multi = True
+                    elif isinstance(g.target, ast.Name):
+                        rn = g.target.id
+                        if (not multi) and any(isinstance(a.func, ast.Subscript) and dotted(a.func.value) == 'self.kernel' and src(a.func.slice) == '0'
+                                               and any(isinstance(y, ast.Name) and y.id == rn for x in a.args for y in ast.walk(x)) for a in applied):
+                            ok_single = True
     res.inst({'function': f.fq, 'one_kernel_for_all': ok_single, 'one_kernel_per_residual': ok_multi}, f.fq + 'sel')
     if not (ok_multi and ok_single):
         res.add(Finding('C09.SEL', f, 'RobustModel.loss no longer selects kernel[0] for a single kernel and zip(kernel, residuals) otherwise', construct='selection'))
@@ -408,8 +419,10 @@ def rule_contr(repo, tier):
     from ..expr import returns_of as _ro
     jname = None
     for r in _ro(f.node):
-        if isinstance(r.value, ast.Tuple) and len(r.value.elts) == 2:
-            jname = _root_name(r.value.elts[1])
+        from ..expr import ret_elts
+        el = ret_elts(f.node, r)
+        if el is not None and len(el) == 2:
+            jname = _root_name(el[1])
     n = 0
     for target, base, tgt, rhs, st in stores:
         if _root_name(target) != jname:
